@@ -147,13 +147,23 @@ def run(tier, seed):
     t0 = time.time()
     cs = cases(tier)
     st = par.pmap(work, cs)
+    vcases = []
+    for case in H.pick(cs, seed, 30 if tier == 'quick' else 150):
+        role, marker, ch, cb, et = case
+        kex, enc, mac = build(case)
+        fmt = ['-n', '-j'] if (len(vcases) % 2) else ['-n']
+        if role == 'server':
+            vcases.append({'label': str(case), 'opts': fmt, 'make': (lambda kex=kex, enc=enc, mac=mac: peer.Server(kex=kex, enc=enc, mac=mac, banner=b'SSH-2.0-OpenSSH_9.6'))})
+        else:
+            vcases.append({'kind': 'client', 'label': str(case), 'opts': fmt, 'make': (lambda kex=kex, enc=enc, mac=mac: peer.Client(kex=kex, enc=enc, mac=mac, banner=b'SSH-2.0-OpenSSH_9.6'))})
+    validated = H.validate_traces(vcases, st)
     return evidence.finish(
         PID, tier, seed, st, t0,
         rule='full product role(2) x marker(4) x chacha{absent, each DB name, unknown} x cbc{absent, each DB name, two, unknown} '
              'x etm{absent, each DB name, two, unknown} x {text, json}; a case is non-trivial when the exposed set V is non-empty',
         assumptions=['virtual socket layer models TCP delivery in whole segments', 'reference rule: refmodels/terrapin.py',
                      'lists are symmetric (c2s == s2c)'],
-        exhaustive=True, extra={'cases': len(cs)})
+        exhaustive=True, traces_validated=validated, extra={'cases': len(cs)})
 
 
 def replay(path):
